@@ -187,3 +187,28 @@ def codec_emits(codec, addr, npdu, ttl, which):
     octets = bytes(sent[0][0].pduData)
     check(octets == want, "a well-formed Annex J frame")
     check(octets[2] * 256 + octets[3] == len(octets), "length field equals the number of octets")
+
+# -- what AnnexJCodec does with an arbitrary datagram ------------------------------------------
+from bacpypes.bvll import bvl_pdu_types
+from bacpypes.pdu import PDU as _PDU
+
+@lemma("C09.codec_receives_any_datagram", params={"codec": CodecObj(), "data": Bytes(0, 16)}, max_paths=40000)
+def codec_receives(codec, data):
+    """a datagram of 0..16 arbitrary octets: either exactly one decoded message of the class its function octet names is handed
+    upward -- and then type octet and length field agree with the datagram -- or the datagram is refused (DecodingError; KeyError
+    for a function code outside Annex J) and nothing is handed upward"""
+    n = len(data)
+    well_framed = n >= 4 and data[0] == 0x81 and data[2] * 256 + data[3] == n
+    pdu = _PDU(data)
+    try:
+        codec.confirmation(pdu)
+    except DecodingError:
+        check(len(trace("up")) == 0, "a refused datagram is not handed upward")
+    except KeyError:
+        check(len(trace("up")) == 0, "a refused datagram is not handed upward (unknown function)")
+        check(well_framed and data[1] not in bvl_pdu_types, "KeyError only for a function code outside Annex J")
+    else:
+        up = trace("up")
+        check(len(up) == 1, "exactly one message handed upward")
+        check(well_framed, "accepted only when type octet and length field agree with the datagram")
+        check(type(up[0][0]) is bvl_pdu_types[data[1]], "the message class the function octet names")
